@@ -599,7 +599,7 @@ class ProgGen:
 
 ZEROS = ", ".join(["0"] * 250)
 KNOWN = [
-    ("deep_eq_recursion", "two distinct self-containing vecs compared with == : unbounded host recursion (abort)",
+    ("deep_eq_recursion", "unbounded host recursion in == / Display / has_hash / Hash / mark: == of two distinct self-containing vecs or maps aborts the process (host stack); so do Display at depth 1e5 and ==, hashing, marking at depth 1e6 on an 8 MiB stack",
      "var a = [1]; a.push(a); var b = [1]; b.push(b); try { print(a == b); } catch e { print(type(e)); }", "value.rs impl PartialEq for Value / object.rs ObjVec::eq"),
     ("deep_eq_recursion", "two distinct self-containing maps compared with ==",
      "var a = {}; a.insert(1, a); var b = {}; b.insert(1, b); try { print(a == b); } catch e { print(type(e)); }", "object.rs ObjHashMap::eq"),
